@@ -52,7 +52,7 @@ func (g *Gen) ClosureProgram() *Chunk {
 
 	nscen := 2 + g.R.Intn(5)
 	for s := 0; s < nscen; s++ {
-		kind := g.R.Intn(11)
+		kind := g.R.Intn(12)
 		g.cover("exit:%d", kind)
 		v := g.fresh("x")
 		getter := func(name string) Expr { return Fn(nil, false, Blk(Return(N(name)))) }
@@ -68,6 +68,19 @@ func (g *Gen) ClosureProgram() *Chunk {
 				g.cover("exit:break")
 			}
 			b.Stmts = append(b.Stmts, &SNumFor{Var: iv, Start: Num(1), Limit: Num(float64(2 + g.R.Intn(3))), Body: body})
+		case 11: // break (and goto) out of a nested block that itself declares the captured local
+			c := g.fresh("c")
+			inner := Blk(Local1(v, Bin("+", N(c), Num(300))), push(bump(v)), push(getter(v)))
+			if g.R.Intn(2) == 0 {
+				inner.Stmts = append(inner.Stmts, &SDo{Body: Blk(Local1(g.fresh("y"), Num(2)), push(getter(v)), &SBreak{})})
+			} else {
+				inner.Stmts = append(inner.Stmts, &SBreak{})
+			}
+			b.Stmts = append(b.Stmts, Local1(c, Num(0)), &SWhile{Cond: &ETrue{}, Body: Blk(
+				Assign1(N(c), Bin("+", N(c), Num(1))),
+				&SDo{Body: inner},
+			)})
+			g.cover("exit:break-from-nested-block")
 		case 1: // while with captured local, break from nested block
 			c := g.fresh("c")
 			b.Stmts = append(b.Stmts, Local1(c, Num(0)), &SWhile{Cond: Bin("<", N(c), Num(3)), Body: Blk(
